@@ -1,6 +1,7 @@
 package gen
 
 import (
+	"sort"
 	"strings"
 	"unicode"
 
@@ -261,6 +262,38 @@ func (g *pg) lastOverlap(full string) *overlap {
 // memberName draws a field / argument / input-field name unique (by norm)
 // within used.  kw allows Go keywords.
 func (g *pg) memberName(pool []string, used nameSet, isField bool) string {
+	// an "inner case twin" of a member of the SAME type: differs from it only in the case of a letter other than
+	// the first, so the Go field names stay distinct (UserId / UserID) while the JSON names differ only in case
+	if g.o.RateInnerCaseTwin > 0 && g.r.Intn(g.o.RateInnerCaseTwin) == 0 {
+		var raws []string
+		for k := range used {
+			if strings.HasPrefix(k, "\x00") {
+				raws = append(raws, k[1:])
+			}
+		}
+		sort.Strings(raws)
+		if len(raws) > 0 {
+			o := proto.Pick(g.r, raws)
+			rs := []rune(o)
+			for i := len(rs) - 1; i >= 1; i-- {
+				if unicode.IsLetter(rs[i]) {
+					if unicode.IsUpper(rs[i]) {
+						rs[i] = unicode.ToLower(rs[i])
+					} else {
+						rs[i] = unicode.ToUpper(rs[i])
+					}
+					break
+				}
+			}
+			t := string(rs)
+			if t != o && !used["\x00"+t] && upperFirst(t) != upperFirst(o) && !goKeywordSet[t] {
+				used["\x00"+t] = true
+				g.allMembers = append(g.allMembers, t)
+				g.feat("name:innerCaseTwin")
+				return t
+			}
+		}
+	}
 	var base string
 	if g.adv() {
 		switch g.r.Intn(6) {
@@ -302,6 +335,7 @@ func (g *pg) memberName(pool []string, used nameSet, isField bool) string {
 	}
 	name := g.uniq(base, ok)
 	used.add(name)
+	used["\x00"+name] = true
 	g.allMembers = append(g.allMembers, name)
 	if isField {
 		g.fieldNorms.add(name)
